@@ -6,9 +6,12 @@ package main
 // data-file sizes and the verdicts of the recovery oracle.
 
 import (
+	"context"
 	"encoding/binary"
 	"encoding/json"
 	"fmt"
+	"github.com/synnaxlabs/cesium"
+	"github.com/synnaxlabs/x/telem"
 	"os"
 	"path/filepath"
 	"sort"
@@ -101,6 +104,23 @@ func dumpMain(p string) {
 	img, err := recfs.Image(rec.muts, k, torn)
 	fmt.Println("image err:", err, " k=", k, " torn=", torn)
 	dumpTree(img, "db", "")
+	if os.Getenv("C02_READ") != "" {
+		if db, err := cesium.Open(context.Background(), "db", cesium.WithFS(img), cesium.WithFileSizeCap(telem.Size(s.FileSize))); err != nil {
+			fmt.Println("open:", err)
+		} else {
+			for _, g := range s.Groups {
+				for _, cs := range append([]cskit.ChanSpec{g.Index}, g.Data...) {
+					fr, err := db.Read(context.Background(), telem.TimeRangeMax, cs.Key)
+					fmt.Printf("read chan %d: err=%v\n", cs.Key, err)
+					for _, ser := range fr.Get(cs.Key).Series {
+						fmt.Printf("   series tr=[%d,%d) len=%d align=%v\n", int64(ser.TimeRange.Start), int64(ser.TimeRange.End), ser.Len(), ser.Alignment)
+					}
+				}
+			}
+			_ = db.Close()
+		}
+		img, _ = recfs.Image(rec.muts, k, torn)
+	}
 	v := evaluate(rec, k, torn)
 	for _, f := range v.fails {
 		fmt.Printf("FAIL %s chan=%d state=%s :: %s\n", f.class, f.key, f.state, f.detail)
